@@ -480,8 +480,10 @@ func checkTACapacity(e *executor, r *stepResult) *vfkit.Violation {
 				// decision was taken under the configuration of that time (C13
 				// judges the new configuration)
 				saved := e.cfg
-				e.cfg = c.AllocCfg
-				want = append(want, e.refExclusive(c)...)
+				for _, cfg := range append([]*vhConfig{c.AllocCfg}, c.LaterCfgs...) {
+					e.cfg = cfg
+					want = append(want, e.refExclusive(c)...)
+				}
 				e.cfg = saved
 			}
 			got := set(g.Exclusive).Size()
@@ -568,6 +570,8 @@ func checkMemory(e *executor, r *stepResult, mv *memView) *vfkit.Violation {
 			sig := "mems-differ-from-assigned-zone"
 			if r.Err != nil || e.failedPending {
 				sig += ":after-failed-request"
+			} else if e.rejectedReconfigs > 0 && e.h.policy == polTA {
+				sig += ":after-rejected-reconfiguration"
 			} else if want.SubsetOf(got) {
 				sig = "mems-wider-than-assigned-zone"
 			} else if got.SubsetOf(want) {
